@@ -369,3 +369,26 @@ V("c02-display-slot", "fault", "C02", P + "polyhedron.py",
   "        return np.array([[i_xx, i_xy, i_xz], [i_xy, i_yy, i_yz], [i_xz, i_yz, i_zz]])\n\n    @property\n    def centroid",
   "        return np.array([[i_xx, i_xy, i_xz], [i_xy, i_zz, i_yz], [i_xz, i_yz, i_yy]])\n\n    @property\n    def centroid", rule="AXI")
 V("c02-rw-lambda-reorder", "rewrite", "C02", P + "polyhedron.py", "i_xx = triangle_integrate(lambda t: t[:, 1] ** 2 + t[:, 2] ** 2)", "i_xx = triangle_integrate(lambda t: t[:, 2] ** 2 + t[:, 1] ** 2)")
+
+# ------------------------------------------------------------------------------------------ C17
+F = "coxeter/families/"
+V("c17-domain-widened", "fault", "C17", F + "plane_shape_families.py",
+  "        if not 1 <= a <= 2:\n            raise ValueError(\"The a parameter must be between 1 and 2.\")", "        if not 1 <= a <= 3:\n            raise ValueError(\"The a parameter must be between 1 and 2.\")", rule="DOM-1")
+V("c17-domain-guard-dropped", "fault", "C17", F + "plane_shape_families.py",
+  "        if not 2 <= c <= 3:\n            raise ValueError(\"The c parameter must be between 2 and 3.\")\n", "", rule="DOM-1")
+V("c17-523-bound", "fault", "C17", F + "plane_shape_families.py", "if not cls.S**2 <= c <= 3:", "if not cls.S <= c <= 3:", rule="DOM-1")
+V("c17-wrong-b", "fault", "C17", F + "plane_shape_families.py", "return ConvexPolyhedron(cls.make_vertices(a, 2, c))\n\n\nclass Family523", "return ConvexPolyhedron(cls.make_vertices(a, 1, c))\n\n\nclass Family523", rule="DOM-1")
+V("c17-plane-types-short", "fault", "C17", F + "plane_shape_families.py", "    _plane_types = np.array([2, 2, 2, 2, 0, 0, 0, 0, 1, 1, 1, 1, 1, 1])", "    _plane_types = np.array([2, 2, 2, 2, 0, 0, 0, 0, 1, 1, 1, 1, 1])", rule="TAB-1")
+V("c17-truncation-map", "fault", "C17", F + "plane_shape_families.py", "c = 3 - 2 * truncation", "c = 3 - truncation", rule="DOM-2")
+V("c17-prism-height", "fault", "C17", F + "common.py", "_make_ngon(n, z=h / 2, area=area),", "_make_ngon(n, z=h, area=area),", rule="UV-1")
+V("c17-pyramid-area", "fault", "C17", F + "common.py", "        area = 3 * volume / h\n", "        area = 2 * volume / h\n", rule="UV-1")
+V("c17-pyramid-apex", "fault", "C17", F + "common.py", "apex = [[0, 0, 3 * h / 4]]", "apex = [[0, 0, h / 2]]", rule="UV-1")
+V("c17-dipyramid-area", "fault", "C17", F + "common.py", "area = 1.5 * volume / h", "area = 3 * volume / h", rule="UV-1")
+V("c17-antiprism-no-twist", "fault", "C17", F + "common.py", "_make_ngon(n, -h / 2, area, angle=pi / n),", "_make_ngon(n, -h / 2, area, angle=0),", rule="UV-1")
+V("c17-ngon-area0", "fault", "C17", F + "common.py", "area_0 = 0.5 * n * sin(2 * pi / n)", "area_0 = 0.5 * n * sin(pi / n)", rule="UV-1")
+V("c17-ngon-guard", "fault", "C17", F + "common.py", "    if n < 3:\n        raise ValueError(\"Cannot generate an n-gon with fewer than 3 vertices.\")\n", "", rule="UV-1")
+V("c17-ngon-family-area", "fault", "C17", F + "common.py", "return _make_ngon(n, area=1, angle=0)", "return _make_ngon(n, area=None, angle=0)", rule="UV-1", allow_error=True)
+V("c17-doi-unknown-empty", "fault", "C17", F + "doi_data_repositories.py",
+  "    if not families:\n        raise KeyError(\n            \"Provided DOI is not associated with any known data or shape families.\"\n        )\n", "", rule="DOI-1")
+V("c17-missing-key", "fault", "C17", F + "doi_data_repositories.py", "ret = self[key] = self.default_factory(key)", "ret = self[str(key)] = self.default_factory(key)", rule="DOI-1")
+V("c17-rw-domain-literal", "rewrite", "C17", F + "plane_shape_families.py", "        if not 1 <= a <= 2:", "        if not 1.0 <= a <= 2.0:")
